@@ -455,14 +455,25 @@ def read_config_independence(repo, col):
                                 x is node for s in st.body
                                 for x in walk_local(s)):
                             for at in holds(st.test, True):
+                                pname = at.left.id if isinstance(
+                                    at.left, ast.Name) else None
+                                if pname is not None and \
+                                        pname not in helper.params:
+                                    # a local that starts as a copy of a
+                                    # parameter (`p = param` ... `if p is None`)
+                                    for d in local_defs(helper.node).get(
+                                            pname, []):
+                                        if isinstance(d.value, ast.Name) and \
+                                                d.value.id in helper.params:
+                                            pname = d.value.id
+                                            break
                                 if at.op == "is" and norm(at.right) == "None" \
-                                        and isinstance(at.left, ast.Name) and \
-                                        at.left.id in helper.params:
-                                    idx = helper.params.index(at.left.id) - 1
+                                        and pname in helper.params:
+                                    idx = helper.params.index(pname) - 1
                                     arg = None
                                     if idx < len(c.args):
                                         arg = c.args[idx]
-                                    arg = kwarg(c, at.left.id) or arg
+                                    arg = kwarg(c, pname) or arg
                                     if arg is not None and not (
                                             isinstance(arg, ast.Constant) and
                                             arg.value is None):
@@ -1139,6 +1150,8 @@ def minishard_encode_before_park(repo, col):
     """Every payload that reaches the shard (appended now or parked for
     later) is the data_encoder output."""
     rule = "E-ORDER.encode-before-store"
+    from .core import minishard_buffer_attr
+    bufattr = minishard_buffer_attr(repo)
     fn = repo.func("sharded_file_accessor", "MiniShard.store_cmc_chunk", inline=True)
     defs = local_defs(fn.node)
     params = [p for p in fn.params if p != "self"]
@@ -1149,10 +1162,13 @@ def minishard_encode_before_park(repo, col):
                 and n.args:
             sinks.append((n, n.args[0]))
         if isinstance(n, ast.Assign) and isinstance(n.targets[0], ast.Subscript) \
-                and "_chunk_buffer" in norm(n.targets[0].value):
+                and norm(n.targets[0].value) == "self." + bufattr:
             sinks.append((n, n.value))
     if not sinks:
-        raise AnalysisError("anchor vanished: payload sinks in %s" % fn.key)
+        col.add(rule, fn, "payload sinks", True, "neither self.append(...) "
+                "nor a store into the reorder buffer was recognised in %s"
+                % fn.key, undecided=True)
+        return
     for node, val in sinks:
         ok = False
         if "data_encoder(" in norm(val):
@@ -1178,11 +1194,17 @@ def rgb_split_idiom(repo, col):
     fn = None
     m = repo.module("volume_reader")
     for cand in ("split_rgb_channels", "volume_file_to_precomputed"):
-        if cand in m.functions and "is_rgb" in norm(m.functions[cand].node):
+        if cand in m.functions and any(
+                (call_name(c) or "").endswith(("get_dtype_from_vol",
+                                               "np.stack", ".view"))
+                for c in calls_in(m.functions[cand].node)):
             fn = m.functions[cand]
             break
     if fn is None:
-        raise AnalysisError("anchor vanished: RGB handling in volume_reader")
+        col.add(rule, "volume_reader:split_rgb_channels", "RGB split", True,
+                "the function that splits RGB voxels into channels was not "
+                "recognised", undecided=True)
+        return
     views = [c for c in calls_in(fn.node) if isinstance(c.func, ast.Attribute)
              and c.func.attr == "view"]
     col.add(rule, fn, "no buffer re-interpretation (.view)", not views,
@@ -1268,9 +1290,14 @@ def empty_minishard_guard(repo, col):
             if isinstance(st, ast.If) and st.body and isinstance(
                     st.body[-1], (ast.Continue, ast.Raise, ast.Return)):
                 t = norm(st.test)
-                if ("length" in t or "len(" in t or "num_chunks" in t or
-                        "end" in t) and ("== 0" in t or "not " in t or
-                                         "==" in t or "< 1" in t):
+                from .dataflow import single_defs as _sd, expand as _ex
+                te = norm(_ex(st.test, _sd(fn.node), depth=3))
+                # "this byte range / index is empty": a zero test on a
+                # difference, a length or a count
+                if ("length" in t or "len(" in te or "num_chunks" in te or
+                        "end" in t or " - " in te or ".size" in te) and (
+                            "== 0" in t or "not " in t or "==" in t
+                            or "< 1" in t):
                     gn = cfg.node_of(st)
                     if gn is not None and sn is not None and \
                             gn.id in cfg.dominators()[sn.id]:
